@@ -84,10 +84,16 @@ func (l *l1ChainGen) gen(num uint64, parentHash common.Hash, ts uint64) []fakes.
 	st = st.clone()
 	var logs []fakes.LogSpec
 	var evs []any
-	if g.Intn(100) < l.eventPct {
+	force := l.wrongV2[num]
+	delete(l.wrongV2, num) // only the first block built at that height carries the wrong announcement
+	if force || g.Intn(100) < l.eventPct {
 		n := 1 + g.Intn(4)
 		for k := 0; k < n; k++ {
-			switch g.Intn(10) {
+			kind := g.Intn(10)
+			if force && k == 0 {
+				kind = 0
+			}
+			switch kind {
 			case 0, 1, 2, 3, 4:
 				mer, rer := world.RandHash(g), world.RandHash(g)
 				logs = append(logs, fakes.PackLog(gerABI, l1GERAddr, "UpdateL1InfoTree", mer, rer))
@@ -95,9 +101,9 @@ func (l *l1ChainGen) gen(num uint64, parentHash common.Hash, ts uint64) []fakes.
 					MainnetExitRoot: mer, RollupExitRoot: rer, ParentHash: parentHash, Timestamp: ts}})
 				st.fr.Add(ref.L1InfoLeaf(ref.GER(mer, rer), parentHash, ts))
 				st.cnt++
-				if l.v2 && g.Intn(2) == 0 {
+				if (l.v2 && g.Intn(2) == 0) || (force && k == 0) {
 					root := st.fr.Root()
-					if l.wrongV2[num] {
+					if force && k == 0 {
 						root = world.RandHash(g)
 					}
 					logs = append(logs, fakes.PackLog(gerABI, l1GERAddr, "UpdateL1InfoTreeV2", root, st.cnt, new(big.Int).SetBytes(parentHash[:]), ts))
@@ -133,6 +139,12 @@ func (l *l1ChainGen) gen(num uint64, parentHash common.Hash, ts uint64) []fakes.
 					logs = append(logs, fakes.LogSpec{Address: l1GERAddr, Topics: []common.Hash{ignoredTopic}})
 				}
 			}
+		}
+	}
+	// several events may be emitted by one transaction (same TxIndex, increasing log index)
+	for i := 1; i < len(logs); i++ {
+		if g.Intn(3) == 0 {
+			logs[i].SameTx = true
 		}
 	}
 	if l.generic && g.Intn(3) == 0 {
@@ -292,7 +304,7 @@ func c05L1Sync(r *mon.Run, caseID string, g *rand.Rand) {
 				ev = ev[len(ev)-100:]
 			}
 			scen["chain_events_tail"] = ev
-			r.Violation("C05:l1infotreesync:store-differs-from-canonical-chain", caseID, diff, scen)
+			r.Violation(r.Prop+":l1infotreesync:store-differs-from-canonical-chain", caseID, diff, scen)
 			return
 		}
 		if !ok {
@@ -302,4 +314,36 @@ func c05L1Sync(r *mon.Run, caseID string, g *rand.Rand) {
 		r.Eval(fmt.Sprintf("l1sync/chunk=%d/lag=%d/jump=%d/leaves=%d", min(int(chunk), 10), lag, maxJump, min(len(rf.Leaves)/20, 3)))
 		r.Add("l1sync_leaves_compared", len(rf.Leaves))
 	})
+}
+
+// runL1SyncOverSim mines a complete L1 history on the simulator (ABI-encoded logs, several events
+// per transaction, big rollup ids, zero / unchanged exit roots), then runs the real L1 info tree
+// syncer over it until its downloader idles.
+func runL1SyncOverSim(g *rand.Rand, target int) (*l1infotreesync.L1InfoTreeSync, *l1ChainGen, *fakes.Chain, func(), error) {
+	ch := fakes.NewChain(1)
+	lg := newL1ChainGen(g, 55, true)
+	lg.adopt(ch.MineFn(target, lg.gen))
+	if lag := g.Intn(3); lag == 0 {
+		ch.SetFinalized(uint64(target))
+	} else {
+		ch.SetFinalized(uint64(target / (lag + 1)))
+	}
+	w := &pollWatcher{}
+	ch.Hook = func(c *fakes.Chain, m string, a any) error { w.observe(m, a); return nil }
+	ctx, cancel := context.WithCancel(context.Background())
+	s, err := newL1Syncer(ctx, filepath.Join(scratchDir("l1sim"), "l1.sqlite"), newFakeRD(), ch.Client(),
+		uint64([]int{1, 3, 10, 100}[g.Intn(4)]), aggkittypes.LatestBlock, 0)
+	if err != nil {
+		cancel()
+		return nil, nil, nil, nil, err
+	}
+	done := make(chan struct{})
+	go func() { s.Start(ctx); close(done) }()
+	w.waitIdle(6, 30*time.Second)
+	stop := func() {
+		cancel()
+		<-done
+		_ = s.VerifDB().Close()
+	}
+	return s, lg, ch, stop, nil
 }
